@@ -1303,7 +1303,11 @@ class Exec:
                     lg = s.uf.setdefault(('log', 1), z3.Function('uf_log', srt, srt)); s.assume(st, lg(r) == a[0])          # log(exp t) = t
                 elif base == 'log':
                     ep = s.uf.setdefault(('exp', 1), z3.Function('uf_exp', srt, srt)); s.assume(st, z3.Implies(a[0] > 0, ep(r) == a[0]))   # exp(log t) = t
-                elif base == 'cosh': s.assume(st, r >= 1)
+                elif base in ('cosh', 'sinh'):
+                    # cosh >= 1, cosh^2 - sinh^2 = 1, sinh has the sign of its argument
+                    ch = s.uf.setdefault(('cosh', 1), z3.Function('uf_cosh', srt, srt)); sh = s.uf.setdefault(('sinh', 1), z3.Function('uf_sinh', srt, srt))
+                    c_, s_ = ch(a[0]), sh(a[0])
+                    s.assume(st, z3.And(c_ >= 1, c_ * c_ - s_ * s_ == 1, z3.Implies(a[0] > 0, s_ > 0), z3.Implies(a[0] < 0, s_ < 0), z3.Implies(a[0] == 0, s_ == 0)))
                 elif base == 'pow': s.assume(st, z3.Implies(a[0] > 0, r > 0))
             return r
         if name in ('memcmp', 'bcmp'):
